@@ -135,14 +135,13 @@ Proof.
 Qed.
 
 Lemma parse_infix_plain : forall pf md f lhs s,
-  infix_plain (tty (curT s)) = true -> tty (curT s) <> TPeriod ->
+  infix_plain (tty (curT s)) = true ->
   parse_infix pf md (S f) lhs s =
   pbind (parse_expression pf md f (prec_of (tty (curT s))) (next s)) (fun r s1 =>
     POk (EInfix (tty (curT s)) lhs r) s1).
 Proof.
-  intros pf md f lhs s Hp Hn. destruct s as [pv [ty lit] pk rs tn fn d].
-  cbn [tty curT] in *. destruct ty; try discriminate Hp; try reflexivity.
-  exfalso; apply Hn; reflexivity.
+  intros pf md f lhs s Hp. destruct s as [pv [ty lit] pk rs tn fn d].
+  cbn [tty curT] in *. destruct ty; try discriminate Hp; reflexivity.
 Qed.
 
 Lemma parse_infix_assign : forall pf md f lhs s,
@@ -289,6 +288,13 @@ Qed.
 Lemma compile_expr_infix_S : forall f op l r c,
   compile_expr (S f) (EInfix op l r) c =
   cbind (compile_expr f l c) (fun _ c1 =>
+  match op with
+  | TPeriod =>
+      match estr 64 r with
+      | None => CNeed
+      | Some name => COk tt (emit0 OpIndex (emit_const (VStr name) c1))
+      end
+  | _ =>
   cbind (compile_expr f r c1) (fun _ c2 =>
       match infix_opcode op with
       | None => CErr
@@ -299,7 +305,8 @@ Lemma compile_expr_infix_S : forall f op l r c,
             | _ => CErr
             end
           else COk tt (emit0 o c2)
-      end)).
+      end)
+  end).
 Proof. reflexivity. Qed.
 
 Lemma compound_assign_non_ident : forall fuel op l r c,
@@ -309,9 +316,10 @@ Proof.
   intros fuel op l r c Hm Hl x c'. destruct fuel as [|f]; [discriminate|].
   rewrite compile_expr_infix_S.
   destruct (compile_expr f l c) as [u c1| | |]; cbn [cbind]; try discriminate.
-  destruct (compile_expr f r c1) as [u2 c2| | |]; cbn [cbind]; try discriminate.
-  destruct (infix_opcode op); [|discriminate].
-  rewrite Hm. destruct l; try discriminate. exfalso. apply (Hl name). reflexivity.
+  destruct op; try discriminate Hm;
+  (destruct (compile_expr f r c1) as [u2 c2| | |]; cbn [cbind]; try discriminate;
+   cbn [infix_opcode is_mutator];
+   destruct l; try discriminate; exfalso; apply (Hl name); reflexivity).
 Qed.
 
 Lemma compile_block_S : forall f s l c,
@@ -780,3 +788,19 @@ Theorem postfix_parens :
   run (L "x = 1; (x)++;") = want /\
   run (L "x = 1; ((x))++;") = want.
 Proof. vm_compute. repeat split; reflexivity. Qed.
+
+(* ------------------------------------------------------------------ *)
+(* C13: the parser keeps what is written after a `.` (repair of D39:   *)
+(* the operand used to be replaced by a string literal holding its     *)
+(* printed form, so a valueless construct there was silently dropped); *)
+(* the tree still has the compound assignment, and since it is not     *)
+(* well-moded Prepare refuses the script                               *)
+(* ------------------------------------------------------------------ *)
+
+Theorem dot_operand_kept :
+  let tree := [SExpr (EAssign (L "x")
+                 (EInfix TPeriod (EIdent (L "a"))
+                    (EInfix TPlusEq (EInt (L "1") 1) (EInt (L "2") 2))))] in
+  parse_script (fun _ => None) max_depth (L "x = a.(1 += 2);") = ParseOk tree /\
+  Spec.Moded.well_moded tree = false.
+Proof. vm_compute. split; reflexivity. Qed.
